@@ -33,7 +33,187 @@ def split_exp(p):
     return {rest: c}, poly.uncanon(ex[0][0][2][0])
 
 
+def sod_paths(prog, cls, scalar, name):
+    """feasible paths of sod_1d::name(x,t) with the bisection result kept as the opaque atom @root(lo,hi)"""
+    fn = [f for f in prog.methods_of(cls) if f.n == name and len(f.params) == 2]
+    if len(fn) != 1:
+        raise AnalysisBroken('sod_1d::%s(x,t) not found' % name)
+    E = terms.Evaluator(prog, dyn_class=cls, scalar=scalar)
+    roots = []
+
+    def hook(e, opath, n, args):
+        if n == 'rtbis':
+            a = args()
+            roots.append(a)
+            return ('call', '@root', a[:2])
+        return None
+    E.opaque_hook = hook
+    outs = E.run(fn[0], arg_names=['x', 't'])
+    res = []
+    for o in outs:
+        cs = o.conds
+        if any(('not', c) in cs for c in cs):
+            continue            # contradictory repetition of the same test
+        uniq = []
+        for c in cs:
+            if c not in uniq:
+                uniq.append(c)
+        if o.kind != 'ret' or o.ret is None or terms.has_unk(o.ret):
+            raise AnalysisBroken('sod_1d::%s: a path is not a single expression' % name)
+        res.append((uniq, o.ret))
+    return fn[0], res, roots
+
+
+def check_sod(ctx, prog):
+    """The region structure and every closed-form relation of Sod's solution, with the root of the pressure function opaque"""
+    S_ = poly.sym
+    res = {}
+    for scalar in cat.SCALARS:
+        cls = 'MASA::sod_1d<%s>' % scalar
+        ctx.require(cls in prog.records, '%s not in IR' % cls)
+        G = S_('Gamma')
+        gm1 = add(G, poly.const(-1))
+        gp1 = add(G, poly.const(1))
+        m2 = mul(gm1, poly.inverse(gp1))            # (gamma-1)/(gamma+1), Sod's mu^2
+        pl, pr, rhol, rhor = poly.const(1), poly.const(Fraction(1, 8)), poly.const(1), poly.const(Fraction(1, 8))
+        T = lambda t, env=None: poly.from_term(t, env)
+        cl = T(('call', 'sqrt', (('sym', '__a'),)), {'__a': mul(mul(G, pl), poly.inverse(rhol))})
+        cr = T(('call', 'sqrt', (('sym', '__a'),)), {'__a': mul(mul(G, pr), poly.inverse(rhor))})
+        pm = poly.atom(('fn', '@root', (poly.canon(pr), poly.canon(pl))))
+        powp = lambda base, ex: poly.atom(('fn', 'pow', (poly.canon(poly.reduce_trig(base)), poly.canon(poly.reduce_trig(ex)))))
+        one = poly.const(1)
+        vm = mul(mul(poly.scale(cl, 2), poly.inverse(gm1)), add(one, powp(mul(pm, poly.inverse(pl)), mul(gm1, poly.inverse(poly.scale(G, 2)))), -1))
+        rho3 = mul(rhol, powp(mul(pm, poly.inverse(pl)), poly.inverse(G)))
+        rho2 = mul(rhor, mul(add(pm, mul(m2, pr)), poly.inverse(add(pr, mul(m2, pm)))))
+        vs = mul(vm, poly.inverse(add(one, mul(rhor, poly.inverse(rho2)), -1)))
+        vt = add(cl, mul(vm, poly.inverse(add(one, m2, -1))), -1)
+        x, t = S_('x'), S_('t')
+        fan_rho = mul(rhol, powp(add(poly.neg(mul(m2, mul(x, poly.inverse(mul(cl, t))))), add(one, m2, -1)), poly.scale(poly.inverse(gm1), 2)))
+        fan_u = mul(add(one, m2, -1), add(mul(x, poly.inverse(t)), cl))
+        bounds = [poly.neg(mul(cl, t)), poly.neg(mul(vt, t)), mul(vm, t), mul(vs, t)]
+        dens = [rhol, fan_rho, rho3, rho2, rhor]
+        vel = [{}, fan_u, vm, vm, {}]
+        out = {}
+        for name, vals in (('eval_q_rho', dens), ('eval_q_rho_u', [mul(a_, b_) for a_, b_ in zip(dens, vel)])):
+            fn, paths, roots = sod_paths(prog, cls, scalar, name)
+            # keep only paths consistent with the ordering of the wave positions (boundary_0 < ... < boundary_3,
+            # i.e. -c_l < -v_t < v_m < v_s): region r passes test i iff r <= i
+            if name == 'eval_q_rho':
+                order = []
+                for conds, ret in paths:
+                    for c in conds:
+                        cc = c[1] if c[0] == 'not' else c
+                        if cc[0] == 'cmp':
+                            b = poly.canon(poly.reduce_trig(poly.from_term(cc[3])))
+                            if b not in order:
+                                order.append(b)
+            else:
+                kept = []
+                for conds, ret in paths:
+                    facts = []
+                    okp = True
+                    for c in conds:
+                        cc = c[1] if c[0] == 'not' else c
+                        b = poly.canon(poly.reduce_trig(poly.from_term(cc[3]))) if cc[0] == 'cmp' else None
+                        if b not in order:
+                            okp = None
+                            break
+                        facts.append((order.index(b), c[0] != 'not'))
+                    if okp is None or any(all((r <= i) == tv for i, tv in facts) for r in range(len(order) + 1)):
+                        # reduce to the canonical chain: failed tests 0..r-1, passed test r
+                        kept.append((conds, ret, facts))
+                merged = []
+                for conds, ret, facts in kept:
+                    r = min([i for i, tv in facts if tv] or [len(order)])
+                    canon_conds = [c for c in conds if (c[1] if c[0] == 'not' else c)[0] == 'cmp']
+                    # rebuild the ordered chain from the density function's tests
+                    merged.append((r, ret))
+                merged.sort(key=lambda z: z[0])
+                paths = [(chain[r_], ret) for r_, ret in merged] if len(merged) == len(chain) else [(c_, r_) for c_, r_, f_ in kept]
+            if name == 'eval_q_rho':
+                chain = [conds for conds, ret in paths]
+            out[name] = [(repr(c), poly.from_term(r)) for c, r in paths]
+            if scalar != 'double':
+                continue
+            ok = len(paths) == 5
+            ctx.ob('C08.SOD-REGIONS', '%s|five-regions' % name, ok, fn.where, 'sod_1d::%s has %d feasible regions, expected 5 (left state, fan, post-fan, post-shock, right state)' % (name, len(paths)),
+                   sample='%s: 5 regions' % name)
+            if not ok:
+                continue
+            for i, (conds, ret) in enumerate(paths):
+                # region i is reached by failing the first i tests and passing test i
+                want_n = min(i + 1, 4)
+                good = len(conds) == want_n
+                if good:
+                    for j, c in enumerate(conds):
+                        neg_ = c[0] == 'not'
+                        cc = c[1] if neg_ else c
+                        good = good and cc[0] == 'cmp' and cc[1] == '<=' and poly.equal(poly.from_term(cc[2]), x) and (neg_ == (j < i))
+                ctx.ob('C08.SOD-REGIONS', '%s|region-%d|tests' % (name, i), good, fn.where, 'region %d of sod_1d::%s is not selected by the chain x <= boundary_j t' % (i, name),
+                       sample='region %d: %d ordered tests on x' % (i, want_n))
+                if good and i < 4:
+                    cc = conds[-1] if conds[-1][0] != 'not' else conds[-1][1]
+                    rs.compare(ctx, 'C08.SOD-FORM', '%s|boundary-%d' % (name, i), poly.from_term(cc[3]), bounds[i], fn.where,
+                               'wave position %d of sod_1d::%s (%s)' % (i, name, ['head of the fan', 'tail of the fan', 'contact', 'shock'][i]))
+                rs.compare(ctx, 'C08.SOD-FORM', '%s|value-%d' % (name, i), poly.from_term(ret), vals[i], fn.where,
+                           'value of sod_1d::%s in region %d (%s)' % (name, i, ['left state', 'rarefaction fan', 'post-fan', 'post-shock', 'right state'][i]))
+            for a in roots:
+                okb = poly.equal(poly.from_term(a[0]), pr) and poly.equal(poly.from_term(a[1]), pl)
+                ctx.ob('C08.SOD-FORM', '%s|bracket' % name, okb, fn.where, 'the pressure root is not bracketed by [p_right, p_left]', sample='rtbis(pr, pl, eps, 100)')
+        # the pressure function whose root is taken
+        ff = [f for f in prog.methods_of(cls) if f.n == 'func']
+        ctx.require(len(ff) == 1, 'sod_1d::func not found')
+        E = terms.Evaluator(prog, dyn_class=cls, scalar=scalar)
+        # func reads the cached states written by its callers: provide them through the same literals
+        o = E.run(ff[0], arg_names=['pm'])
+        ctx.require(len(o) == 1 and o[0].ret is not None, 'sod_1d::func is not a single expression')
+        env = {'pl': pl, 'pr': pr, 'cl': cl, 'cr': cr, 'rhol': rhol, 'rhor': rhor}
+        got = poly.from_term(o[0].ret, env)
+        out['func'] = got
+        if scalar == 'double':
+            P = S_('pm')
+            fan = mul(mul(poly.scale(cl, 2), poly.inverse(mul(cr, gm1))), add(one, powp(mul(P, poly.inverse(pl)), mul(gm1, poly.inverse(poly.scale(G, 2)))), -1))
+            shock = mul(add(mul(P, poly.inverse(pr)), one, -1),
+                        poly.sqrt_of(mul(add(one, m2, -1), poly.inverse(mul(G, add(m2, mul(P, poly.inverse(pr))))))))
+            rs.compare(ctx, 'C08.SOD-FORM', 'func', got, add(shock, fan, -1), ff[0].where, 'sod_1d::func (u_shock(p) - u_fan(p), scaled by 1/c_r)')
+        # ---- the bisection loop: convergence tests must be two-sided (Engler-style contradiction: one exit tests |dx|, the other a bare signed value)
+        rt = [f for f in prog.methods_of(cls) if f.n == 'rtbis']
+        ctx.require(len(rt) == 1, 'sod_1d::rtbis not found')
+        if scalar == 'double':
+            from ..ast import nodes, strip, flat_stmts, show
+            loops = list(nodes(rt[0].body, 'for'))
+            ctx.require(len(loops) == 1, 'sod_1d::rtbis: bisection loop not found')
+            exits = [n for n in nodes(loops[0]['body'], 'if') if any(True for _ in nodes(n['then'], 'return'))]
+            ctx.require(len(exits) >= 1, 'sod_1d::rtbis: no convergence exit inside the loop')
+            for ex_ in exits:
+                disj = []
+
+                def split(c):
+                    c = strip(c, casts=True)
+                    if c.get('k') == 'bin' and c['op'] == '||':
+                        split(c['a'])
+                        split(c['b'])
+                    else:
+                        disj.append(c)
+                split(ex_['c'])
+                for c in disj:
+                    ok = c.get('k') == 'bin' and c['op'] in ('<', '<=') and strip(c['a'], casts=True).get('k') == 'call' and strip(c['a'], casts=True).get('n') in ('abs', 'fabs')
+                    ctx.ob('C08.SOD-BISECT', 'convergence-test|%s' % c.get('l'), ok, c.get('l') or rt[0].where,
+                           'bisection stops when `%s`: a one-sided test on a signed quantity is true for every negative value, so the loop stops at the first midpoint left of the root' % show(c),
+                           sample='|quantity| < tolerance')
+            br = [n for n in nodes(rt[0].body, 'if') if any(c_.get('n') == 'masa_exit' for c_ in nodes(n['then'], 'call'))]
+            ctx.ob('C08.SOD-BISECT', 'bracket-check', len(br) == 1 and strip(br[0]['c'], casts=True).get('op') == '>=', rt[0].where,
+                   'rtbis does not reject an interval whose end values have the same sign', sample='f(x1)*f(x2) >= 0 is fatal')
+        res[scalar] = out
+    ctx.ob('C08.UNI', 'sod_1d', res['double'] == res['long double'], '', 'sod_1d: instantiations differ', sample='regions identical in both instantiations')
+
+
 def run(ctx, prog):
+    ctx.rule('C08.SOD-REGIONS', 'sod_1d density and momentum have exactly five regions selected by an ordered chain of tests x <= (wave speed) t')
+    ctx.rule('C08.SOD-FORM', "with p* the (opaque) root of the pressure function on [p_r, p_l] and mu^2 = (Gamma-1)/(Gamma+1) of the CURRENT Gamma: wave positions -c_l t, -v_t t, v_m t, v_s t and region values "
+             'equal Sod\'s closed forms (isentropic fan and post-fan state, Rankine-Hugoniot post-shock density, shock speed from mass conservation, common contact velocity); '
+             'the function whose root is taken is u_shock(p) - u_fan(p)')
+    ctx.rule('C08.SOD-BISECT', 'the bisection loop of sod_1d::rtbis leaves early only on two-sided (absolute value) tests and rejects unbracketed intervals')
     ctx.rule('C08.DENSITY', 'eval_prior is the normalised normal density exp(-(x-m)^2/(2 sigma^2))/sqrt(2 pi sigma^2); eval_posterior the same with '
              'sigma_p^2 = 1/(1/sigma^2 + n/sigma_d^2), m_p = sigma_p^2 (m/sigma^2 + n xbar/sigma_d^2); n = size of the data vector, xbar its mean as the code computes it')
     ctx.rule('C08.PROP', 'posterior is proportional to likelihood times prior: the exponent of posterior minus those of prior and likelihood has zero derivative in x')
@@ -118,5 +298,6 @@ def run(ctx, prog):
                 want = poly.scale(poly.ipow(S('sigma'), k), df)
             rs.compare(ctx, 'C08.CENMOM', 'k=%d' % k, cm[k][0], want, cm[k][1].where, 'cp_normal::eval_cen_mom(%d)' % k)
     ctx.ob('C08.UNI', 'cp_normal', res['double'] == res['long double'], '', 'double and long double instantiations are different expressions', sample='27 evaluations identical')
-    ctx.note('Sod clause not decided by this family (bisection loop); sod_1d is covered by C10, C11, C14, C15, C16 only')
+    check_sod(ctx, prog)
+    ctx.note('Sod: the closed-form structure is decided with the root of the pressure function opaque; that the bisection loop converges to that root is not decided')
     ctx.trusted = ['clang 14 front end', 'tools/masa-ir', 'sa/terms.py', 'sa/poly.py', 'the density formulas in sa/checks/c08.py']
